@@ -326,6 +326,8 @@ class Run:
             "known_findings_seen": {k: len(v) for k, v in seen_known.items()},
             "inconclusive_reasons": self.inconclusive,
             "verdict": status,
+            "slowest_cases": [[r["id"], round(r.get("wall_s", 0), 2)] for r in
+                              sorted(self.results, key=lambda r: -r.get("wall_s", 0))[:8]],
             "exhaustive": bool(getattr(mod, "EXHAUSTIVE", False)),
         }
         for ex in self.extras:
